@@ -1,6 +1,7 @@
 (* Harness.v: dispatch from a decoded case (function name, arguments) to the model.
    Part of the correspondence harness. *)
-From CCT Require Import Prelude Hex Num Time Formats Json JsonParse Auth Signing Construct Sha256 Wire Keys Gpg Cli Ed25519.
+From CCT Require Import Prelude Hex Num Time Formats Json JsonParse Auth Signing Construct Sha256 Wire Keys Gpg Cli Ed25519 PySrc.
+From CCT.Gen Require Source.
 Open Scope N_scope.
 
 Definition unit_res (r : res unit) : res pv := x <- r ;; Ok VNone.
@@ -81,6 +82,8 @@ Section Run.
         else Unmodelled
     | [a; b] =>
         if is (U"verify_root") then unit_res (verify_root ed_verify sha a b)
+        (* the text of common.py as translated on this run (Gen/Source.v), interpreted *)
+        else if is (U"src_run") then match a with VStr name => run_prog Source.program (string_of_ustr name) [b] | _ => Unmodelled end
         else if is (U"root_history") then
           match b with
           | VList offers =>
